@@ -181,6 +181,10 @@ def gen_builtin_json(rng):
         v = rng.choice([0, 0.0, False, "", [], None, {}])
     elif top == "dict":
         v = {("K%d " % i) + _ascii(rng, 4): _json_value(rng, 1) for i in range(rng.randint(1, 4))}
+        if rng.random() < 0.06:
+            # a member that happens to be named like one of the section's own header fields: the stored JSON value
+            # must still appear as it is
+            v[rng.choice(["Section Version", "Sub-section type", "Created by"])] = rng.choice([7, "bmc-app", [1, 2]])
     elif top == "list":
         v = [_json_value(rng, 1) for _ in range(rng.randint(0, 4))]
     elif top == "str":
